@@ -9,8 +9,9 @@ PROPS = {
                      "documented requirement (also through a contract that catches the callee's exception), every MINIMAL set meeting it, vote-mode quorum} "
                      "+ method variants naming an ALREADY EXISTING object (registered container / name / TLD, present candidate, stored report, bound key, stored config key ...) under the same sets "
                      "+ a ROLE-CHANGE schedule for every method whose requirement depends on the Inner Ring list (audit.put, update of NeoFS/Processing): NeoFSAlphabet role re-designated in block B, the dismissed "
-                     "and the new member both in block B+1 and again in B+2 (dismissed inert, new HALT) x committees {1,3} + the even size 6 on "
-                     "update/verify/threshold-sensitive methods (quick) / {1,3,6,7} (thorough), executed as transactions with valid arguments from per-method builders; verify additionally by test "
+                     "and the new member both in block B+1 and again in B+2 (dismissed inert, new HALT) x committees {1,3} + size 5 and a chain whose committee (6) is LARGER than its validator set (4: chainx.NewCV; extra signer sets: block signers' 3-of-4 account, "
+                     "2k/3+1 and k/2+1 accounts over the validators only - refused everywhere -, a committee member that is no validator) on "
+                     "update/verify/threshold-sensitive methods incl. alphabet.emit (quick) / {1,3,5,6,7} + 6/4 completely + 7/5 threshold-sensitive (thorough), executed as transactions with valid arguments from per-method builders; verify additionally by test "
                      "invocation and as fee-paying transaction sender (Verification trigger); plus argument fuzz under unmet sets: own-account / other-contract / zero-account substitution, one or two "
                      "parameters at their zero value, mutated and random arguments (2 per method quick, 40 thorough). Observed per transaction: VM state, raw storage digest + update counter + NEF checksum of ALL "
                      "deployed contracts, notifications, GAS/NEO balances of all involved accounts, exact fee of the payer, NEO votes. stats: cell.<contract>.<method> = executed cells, set.<label> = cells per signer set, "
